@@ -17,5 +17,6 @@ package shell
 
 // IntegratedRunner.Run as used by the exec builtin (interpreter internals assumed, see C13 / C20)
 //@ func (IntegratedRunner).Run
-//@ trusted mvdan.cc/sh interpreter glue: parse, interp.New, runner.Run, exit status and output capture are assumed
-//@ ensures err == nil ==> result0.Cmd == cmd && (result0.Status == 0 ==> result0.Stdout == execStdout(cmd))
+//@ props C13 C20
+//@ ensures [C20,result-names-the-command] err == nil ==> result0.Cmd == cmd
+//@ at call ListEnviron#0: assert [C13,passed-variables-come-after-the-process-environment] env == slicecat(environ, old(env))
